@@ -48,6 +48,20 @@ where
     }
 }
 
+/// response read from a byte stream (strings cannot be borrowed from the input)
+fn resp_reader<Q: GraphQLQuery>(s: &str) -> Value
+where
+    Q::ResponseData: Serialize + std::fmt::Debug,
+{
+    match serde_json::from_reader::<_, Q::ResponseData>(s.as_bytes()) {
+        Ok(d) => match serde_json::to_value(&d) {
+            Ok(j) => json!({"ok": j}),
+            Err(e) => json!({"ser_err": e.to_string()}),
+        },
+        Err(e) => json!({"err": e.to_string()}),
+    }
+}
+
 fn vars<Q: GraphQLQuery>(v: Value) -> Value
 where
     Q::Variables: serde::de::DeserializeOwned,
@@ -109,8 +123,9 @@ codegen-units = 8
 
 
 class Consumers:
-    def __init__(self, name, nbins=14, with_serde=True):
+    def __init__(self, name, nbins=14, with_serde=True, reader_route=False):
         self.name = name
+        self.reader_route = reader_route   # also instantiate the from_reader route for responses
         self.root = os.path.join(vlib.WORK, "consumers", name)
         self.nbins = nbins
         self.cases = {}        # case id -> dict(source, op, kinds)
@@ -151,6 +166,8 @@ class Consumers:
                     if k == "resp":
                         arms.append('        ("%s", "resp") => resp::<%s::%s>(input),' % (cid, cid, c["op"]))
                         arms.append('        ("%s", "resp_str") => resp_str::<%s::%s>(input.as_str().unwrap()),' % (cid, cid, c["op"]))
+                        if self.reader_route:
+                            arms.append('        ("%s", "resp_reader") => resp_reader::<%s::%s>(input.as_str().unwrap()),' % (cid, cid, c["op"]))
                     elif k == "vars":
                         arms.append('        ("%s", "vars") => vars::<%s::%s>(input),' % (cid, cid, c["op"]))
                     elif k == "defaults":
